@@ -5,6 +5,7 @@ structural.py (Traversable.export_samples, ExportManager), elements.py (LeafElem
 -/
 import Smpl.Model.Akai
 import Smpl.Model.Info
+import Smpl.Model.AkaiProgram
 
 namespace Smpl.AkaiTool
 open Smpl Smpl.Akai Smpl.Names Smpl.Info Smpl.Wav Smpl.Transcode
@@ -58,7 +59,7 @@ def sampleItems (fileName : Name) (h : SampleHdr) : Item :=
 def fileTypeName (n : FileNode) : Name :=
   match n.kind with
   | .sample h _ => sampleTypeName h.id
-  | .program => (if n.ftype == 0x70 then "S1000 Program" else "S3000 Program").toList
+  | .program _ => (if n.ftype == 0x70 then "S1000 Program" else "S3000 Program").toList
 
 /-- the image as the generic directory tree of `Names.lookupIdx`, with assigned safe names. -/
 def nodeTree (parts : List PartNode) : Except Err Node := do
@@ -114,7 +115,10 @@ def lsOf (parts : List PartNode) (path : Name) : Except Err (List Name) := do
         | some f, some (s, _) =>
           match f.kind with
           | .sample h _ => pure (treeLines [s, "  ".toList, sampleTypeName h.id] (sampleItems f.name h))
-          | .program => pure ["<program>".toList]
+          | .program c =>
+            match Smpl.AkaiProgram.parse c with
+            | some pr => pure (treeLines [s, "  ".toList, fileTypeName f] (Smpl.AkaiProgram.items f.name pr))
+            | none => pure []
         | _, _ => pure []
       | none => pure []
     | _ => pure []
@@ -143,13 +147,13 @@ def exportVolume (dir : List Name) (v : VolNode) : Except Err (List Exported) :=
   let samples := v.files.filterMap fun f =>
     match f.kind with
     | .sample h d => some (f.name, h, d)
-    | .program => none
+    | .program _ => none
   -- export names are assigned among *all* children of the volume (programs included)
   let fn ← assign (v.files.map fun f => (f.name, true))
   let expNames := (v.files.zip fn).filterMap fun (f, (_, e)) =>
     match f.kind with
     | .sample _ _ => some e
-    | .program => none
+    | .program _ => none
   let groups := combine expNames
   groups.mapM fun g =>
     match g with
